@@ -30,6 +30,8 @@ impl Head {
 
     pub fn write(&mut self, data: &[u8]) -> Result<(), IoError> {
         fail_point!("write-head");
+        // the cached read handle of the head file shares its cursor with this one
+        self.file.seek(SeekFrom::End(0))?;
         self.file.write_all(data)?;
         self.bytes += data.len() as u64;
         Ok(())
